@@ -111,12 +111,12 @@ func surgeryTpls(m *ir.Message) ([]map[string]any, map[string]string) {
 	var out []map[string]any
 	byKey := map[string]string{}
 	add := func(f *ir.Field, t map[string]any) {
-		t["key"] = ir.JSONName(f.Name)
-		if f.Name != ir.JSONName(f.Name) {
+		t["key"] = f.JSON()
+		if f.Name != f.JSON() {
 			t["alt"] = f.Name
 		}
 		out = append(out, t)
-		byKey[ir.JSONName(f.Name)] = fmt.Sprint(t["tpl"])
+		byKey[f.JSON()] = fmt.Sprint(t["tpl"])
 	}
 	for _, f := range m.Fields {
 		a := f.Ann
@@ -165,7 +165,7 @@ func docForm(req *ir.Request, m *ir.Message, kind string, pj *jn, r *gen.R) *jn 
 	switch kind {
 	case "surgery":
 		for _, f := range m.Fields {
-			k := ir.JSONName(f.Name)
+			k := f.JSON()
 			v := out.get(k)
 			a := f.Ann
 			switch {
@@ -213,7 +213,7 @@ func docForm(req *ir.Request, m *ir.Message, kind string, pj *jn, r *gen.R) *jn 
 			if f.Ann.Flatten == nil || !*f.Ann.Flatten {
 				continue
 			}
-			k := ir.JSONName(f.Name)
+			k := f.JSON()
 			v := out.get(k)
 			out.del(k)
 			pfx := ""
@@ -235,7 +235,7 @@ func docForm(req *ir.Request, m *ir.Message, kind string, pj *jn, r *gen.R) *jn 
 				if f.Oneof != o.Name {
 					continue
 				}
-				k := ir.JSONName(f.Name)
+				k := f.JSON()
 				v := out.get(k)
 				if v == nil {
 					continue
@@ -254,7 +254,7 @@ func docForm(req *ir.Request, m *ir.Message, kind string, pj *jn, r *gen.R) *jn 
 			}
 		}
 	case "ulist", "umap":
-		k := ir.JSONName(m.Fields[0].Name)
+		k := m.Fields[0].JSON()
 		if v := out.get(k); v != nil {
 			return v
 		}
@@ -272,9 +272,9 @@ func docForm(req *ir.Request, m *ir.Message, kind string, pj *jn, r *gen.R) *jn 
 			if uf == nil {
 				continue
 			}
-			if v := out.get(ir.JSONName(f.Name)); v != nil && v.k == 'o' {
+			if v := out.get(f.JSON()); v != nil && v.k == 'o' {
 				for i, e := range v.obj {
-					if inner := e.val.get(ir.JSONName(uf.Name)); inner != nil {
+					if inner := e.val.get(uf.JSON()); inner != nil {
 						v.obj[i].val = inner
 					} else {
 						v.obj[i].val = &jn{k: 'a', arr: []*jn{}}
@@ -349,7 +349,7 @@ func canonicalise(sh *c11Shape, in *ir.Message, body *jn) (*jn, string) {
 		if body.k != 'a' {
 			return nil, "root unwrap of a list: the body is not an array"
 		}
-		return jObj(jmem{ir.JSONName(in.Fields[0].Name), body}), ""
+		return jObj(jmem{in.Fields[0].JSON(), body}), ""
 	case "umap":
 		if body.k == 'n' {
 			return jObj(), ""
@@ -357,7 +357,7 @@ func canonicalise(sh *c11Shape, in *ir.Message, body *jn) (*jn, string) {
 		if body.k != 'o' {
 			return nil, "root unwrap of a map: the body is not an object"
 		}
-		return jObj(jmem{ir.JSONName(in.Fields[0].Name), body}), ""
+		return jObj(jmem{in.Fields[0].JSON(), body}), ""
 	}
 	if body.k != 'o' {
 		return nil, "the body is not a JSON object"
@@ -379,16 +379,16 @@ func canonicalise(sh *c11Shape, in *ir.Message, body *jn) (*jn, string) {
 			}
 			child := jObj()
 			for _, cf := range cm.Fields {
-				k := pfx + ir.JSONName(cf.Name)
+				k := pfx + cf.JSON()
 				for _, mem := range body.obj {
 					if mem.key == k {
-						child.obj = append(child.obj, jmem{ir.JSONName(cf.Name), mem.val})
+						child.obj = append(child.obj, jmem{cf.JSON(), mem.val})
 					}
 				}
 				out.del(k)
 			}
 			if len(child.obj) > 0 {
-				out.obj = append(out.obj, jmem{ir.JSONName(f.Name), child})
+				out.obj = append(out.obj, jmem{f.JSON(), child})
 			}
 		}
 	case "oneofflat", "oneofnest":
@@ -425,7 +425,7 @@ func canonicalise(sh *c11Shape, in *ir.Message, body *jn) (*jn, string) {
 				variant := jObj()
 				variant.obj = []jmem{}
 				for _, vf := range vm.Fields {
-					k := ir.JSONName(vf.Name)
+					k := vf.JSON()
 					for _, mem := range body.obj {
 						if mem.key == k {
 							variant.obj = append(variant.obj, jmem{k, mem.val})
@@ -433,7 +433,7 @@ func canonicalise(sh *c11Shape, in *ir.Message, body *jn) (*jn, string) {
 					}
 					out.del(k)
 				}
-				out.obj = append(out.obj, jmem{ir.JSONName(f.Name), variant})
+				out.obj = append(out.obj, jmem{f.JSON(), variant})
 			}
 		}
 	case "mapval":
@@ -446,14 +446,14 @@ func canonicalise(sh *c11Shape, in *ir.Message, body *jn) (*jn, string) {
 			if uf == nil {
 				continue
 			}
-			v := out.get(ir.JSONName(f.Name))
+			v := out.get(f.JSON())
 			if v == nil || v.k != 'o' {
 				continue
 			}
 			for i, e := range v.obj {
 				switch e.val.k {
 				case 'a':
-					v.obj[i].val = jObj(jmem{ir.JSONName(uf.Name), e.val})
+					v.obj[i].val = jObj(jmem{uf.JSON(), e.val})
 				case 'n':
 					v.obj[i].val = jObj() // an absent list
 				default:
